@@ -270,6 +270,10 @@ func countObserved(pl *plan, ob *observed, o *simkit.Outcome) {
 // and from gates that were passed, so it is the same on every run of a tree
 // on which the property holds.
 func countPlan(pl *plan, o *simkit.Outcome) {
+	if pl.cfg.Fam == famNoStart {
+		countPlanNoStart(pl, o)
+		return
+	}
 	total := pl.out[1] + pl.out[2]
 	pos, first := 0, true
 	for _, it := range pl.cons {
@@ -377,6 +381,9 @@ func judge(pl *plan, ob *observed) (vs []simkit.Found, facts []string, harnessEr
 		vs = append(vs, *ob.stuckFound)
 		fact("stuck: %s / %s", ob.stuckFound.Invariant, ob.stuckFound.Signature)
 		return vs, facts, ""
+	}
+	if pl.cfg.Fam == famNoStart {
+		return judgeNoStart(pl, ob)
 	}
 	if ob.res == nil {
 		return nil, []string{"no puppet result"}, fmt.Sprintf("the puppet left no result file (Go returned %v)", ob.goErr)
